@@ -365,6 +365,13 @@ pub fn extra_universe() -> Universe {
     let mut s: Vec<Ty> = vec![];
     s.extend([Ty::adt(wide_e, vec![]), Ty::vec(Ty::adt(wide_e, vec![])), Ty::opt(Ty::adt(wide_e, vec![]))]);
     s.extend([Ty::adt(rep8, vec![a(Ty::vec(p(U64)))]), Ty::adt(rep8, vec![a(p(U8))]), Ty::vec(Ty::adt(rep8, vec![a(Ty::String)])), Ty::adt(rep16, vec![]), Ty::vec(Ty::adt(rep16, vec![])), Ty::adt(rep32, vec![]), Ty::adt(g1, vec![a(Ty::adt(rep32, vec![]))])]);
+    // packed zero-copy structures: the size is not a multiple of the alignment unit
+    let pk4 = add(def("ZPk4", Zero, &["C", "packed(4)"], vec![], Body::Struct(named(&[("a", p(U64)), ("b", p(U32))]))));
+    let pk1 = add(def("ZPk1", Zero, &["C", "packed"], vec![], Body::Struct(named(&[("a", p(U8)), ("b", p(U64)), ("c", p(U16))]))));
+    for z in [pk4, pk1] {
+        let t = Ty::adt(z, vec![]);
+        s.extend([t.clone(), Ty::vec(t.clone()), Ty::bslice(t.clone()), Ty::arr(t.clone(), 3), Ty::adt(pre, vec![a(Ty::String), a(Ty::vec(t.clone()))]), Ty::adt(tail, vec![a(Ty::vec(t.clone()))]), Ty::adt(g1, vec![a(t)])]);
+    }
     // array lengths beyond 2^32 (types without values)
     s.extend([Ty::phantom(Ty::arr(p(U8), (1usize << 32) + 2)), Ty::arr(Ty::arr(p(U16), (1usize << 32) + 1), 0)]);
     // items of more than 4 KiB in sequences
